@@ -279,3 +279,58 @@ theorem close_layout (D : Deps) (w : W) (h : AllInv w) (hok : (close D w).2 = .o
   | other => simp at hok
 
 end Carquet.Proofs.WriterLayout
+
+namespace Carquet.Proofs.WriterLayout
+open Carquet.Impl.Writer Carquet.Proofs.Writer
+
+/-- rows of the file = sum of the rows of its row groups -/
+def RowsInv (w : W) : Prop := w.totalRows = (w.rowGroups.map (·.numRows)).sum
+
+theorem rowsInv_ensureHeader (w : W) (h : RowsInv w) : RowsInv (ensureHeader w) := by
+  unfold ensureHeader; by_cases hw : w.headerWritten = true <;> simpa [hw, RowsInv] using h
+
+theorem rowsInv_ensureRowGroup (w : W) (h : RowsInv w) : RowsInv (ensureRowGroup w) := by
+  cases hr : w.rg <;> simpa [ensureRowGroup, hr, RowsInv] using h
+
+theorem rowsInv_flushRowGroup (D : Deps) (w : W) (h : RowsInv w) : RowsInv (flushRowGroup D w).1 := by
+  unfold flushRowGroup
+  cases w.rg with
+  | none => exact h
+  | some cws =>
+    simp only
+    cases finalizeCols D w w.cols cws w.fileOffset with
+    | none => exact h
+    | some p => simp [RowsInv] at h ⊢; omega
+
+theorem rowsInv_step (D : Deps) (w : W) (op : Op) (h : RowsInv w) : RowsInv (step D w op).1 := by
+  cases op with
+  | batch b =>
+    have hR := rowsInv_ensureRowGroup _ (rowsInv_ensureHeader w h)
+    simp only [step, writeBatch]
+    cases w.cols[b.col]? with
+    | none => exact h
+    | some c =>
+      simp only
+      cases (ensureRowGroup (ensureHeader w)).rg with
+      | none => exact h
+      | some cws =>
+        simp only
+        cases cws[b.col]? with
+        | none => exact h
+        | some cw =>
+          simp only
+          cases colWriteBatch D w.codec (targetPageSize w) c cw b with
+          | none => exact hR
+          | some cw' => exact hR
+  | newRowGroup => exact rowsInv_flushRowGroup D _ (rowsInv_ensureHeader w h)
+
+theorem rowsInv_stateAfter (D : Deps) : ∀ (ops : List Op) (w : W), RowsInv w → RowsInv (stateAfter D w ops) := by
+  intro ops
+  induction ops with
+  | nil => intro w h; exact h
+  | cons op ops ih => intro w h; exact ih _ (rowsInv_step D w op h)
+
+theorem rowsInv_closing (D : Deps) (w : W) (h : RowsInv w) : RowsInv (closing D w) :=
+  rowsInv_flushRowGroup D _ (rowsInv_ensureHeader w h)
+
+end Carquet.Proofs.WriterLayout
